@@ -154,6 +154,18 @@ class Kernel:
                 return GenObj(c, fid, n)
 
             fn: Any = afactory
+            if spec.get("annot") or not spec["types"]:
+                pass        # the return annotation is read from the function itself
+            elif fid % 3 == 1:
+                # an asynchronous factory that is not an `async def` function: a callable object
+                class AsyncCallable:
+                    async def __call__(self) -> Any:
+                        return await afactory()
+
+                fn = AsyncCallable()
+            elif fid % 3 == 2:
+                # … or a plain function returning the coroutine of an async helper
+                fn = lambda: afactory()  # noqa: E731
         else:
             def sfactory():  # type: ignore[no-untyped-def]
                 c, n = begin()
@@ -185,9 +197,19 @@ class Kernel:
             if spec["raises"] is not None:
                 raise make_exc(spec["raises"])
 
+        def cancelled_at_first_checkpoint(args: tuple[Any, ...]) -> None:
+            # the awaitable was invoked and then cancelled before it could do anything
+            arg = "-" if not spec["pass"] else exc_name(args[0]) if args else "missing"
+            kern.tdlog.append(f"td+ {spec['id']} {arg}")
+            kern.tdlog.append(f"td- {spec['id']} cancelled")
+
         if spec["async"]:
             async def acb(*args: Any) -> None:
-                await checkpoint()
+                try:
+                    await checkpoint()
+                except anyio.get_cancelled_exc_class():
+                    cancelled_at_first_checkpoint(args)
+                    raise
                 run(args)
 
             if spec["id"] % 2:
@@ -282,6 +304,8 @@ class Kernel:
     ANNOT = {
         "plain": "T{ty}", "str": "'T{ty}'", "optional": "Optional[T{ty}]", "pep604": "T{ty} | None",
         "str604": "'T{ty} | None'", "union": "Union[T{ty}, None]", "badunion": "Union[T{ty}, T{ty2}]",
+        "optstr": "Optional['T{ty}']", "unionstr": "Union['T{ty}', None]", "stropt": "'Optional[T{ty}]'",
+        "str604b": "'None | T{ty}'",
     }
 
     def build_function(self, params: list[dict[str, Any]], is_async: bool) -> Any:
@@ -494,31 +518,45 @@ class Worker:
         entered = False
         exitcmd: dict[str, Any] | None = None
         n0 = len(kern.tdlog)
-        try:
-            async with ctx:
-                entered = True
-                kern.results[cmd["i"]] = ["ok"]
-                exitcmd = await self.frame(cid)
-                n0 = len(kern.tdlog)
-                assert exitcmd is not None
-                if exitcmd["end"]["k"] != "ret":
-                    raise make_exc(exitcmd["end"])
-            outcome = "exitNormal"
-        except BaseException as e:  # noqa: BLE001
-            if not entered:
-                if isinstance(e, RuntimeError):
-                    kern.results[cmd["i"]] = [kern.rt_name(e)]
-                    return
-                raise
-            if type(e).__name__ in ("Cancelled", "CancelledError") and exitcmd is None:
-                raise
-            if isinstance(e, RuntimeError) and "stack corruption" in str(e):
-                outcome = "corruption"
-            else:
-                ls = leaves(e)
-                grouped = isinstance(e, BaseExceptionGroup)
-                outcome = (f"raised [{', '.join(exc_name(x) for x in ls)}] "
-                           f"{'grouped' if grouped else 'bare'} leafgroups={leaf_groups(e)}")
+        outcome = "?"
+        with anyio.CancelScope() as scope:
+            # the way the block is left is observed here, inside the scope, before the scope absorbs
+            # the cancellation it caused itself
+            try:
+                async with ctx:
+                    entered = True
+                    kern.results[cmd["i"]] = ["ok"]
+                    exitcmd = await self.frame(cid)
+                    n0 = len(kern.tdlog)
+                    assert exitcmd is not None
+                    if exitcmd["end"]["k"] == "cancelled":
+                        scope.cancel()           # delivered at the block's next checkpoint
+                        await checkpoint()
+                        kern.tdlog.append("NOT-CANCELLED")
+                    elif exitcmd["end"]["k"] != "ret":
+                        raise make_exc(exitcmd["end"])
+                outcome = "exitNormal"
+            except BaseException as e:  # noqa: BLE001
+                if not entered:
+                    if isinstance(e, RuntimeError):
+                        kern.results[cmd["i"]] = [kern.rt_name(e)]
+                        return
+                    raise
+                if type(e).__name__ in ("Cancelled", "CancelledError") and exitcmd is None:
+                    raise
+                if isinstance(e, RuntimeError) and "stack corruption" in str(e):
+                    outcome = "corruption"
+                else:
+                    ls = leaves(e)
+                    grouped = isinstance(e, BaseExceptionGroup)
+                    names = [exc_name(x) for x in ls]
+                    if names and all(n == "cancelled" for n in names):
+                        # how many cancellation exceptions survive, and in what nesting, is the
+                        # back-end's business (trio collapses them, asyncio nests the groups)
+                        outcome = "raised cancelledOnly"
+                    else:
+                        outcome = (f"raised [{', '.join(names)}] "
+                                   f"{'grouped' if grouped else 'bare'} leafgroups={leaf_groups(e)}")
         if exitcmd is not None and exitcmd["i"] >= 0:
             kern.results[exitcmd["i"]] = kern.tdlog[n0:] + (["closed"] if ctx.closed else ["NOT-CLOSED"]) + [outcome]
 
@@ -604,6 +642,28 @@ class Worker:
                 d = target.get_resources(TYPES[cmd["ty"]])
                 return ["all [" + ", ".join(f"{k}={val_name(v)[4:]}" for k, v in d.items()) + "]"]
             if op == "addtd":
+                if cmd.get("via") == "ctxtd" and cmd["callable"]:
+                    # the @context_teardown route: an async generator whose second half is the callback
+                    from asphalt.core import context_teardown
+
+                    inner = kern.make_cb({**cmd["cb"], "async": False}, cmd["c"])
+
+                    @context_teardown
+                    async def gen() -> Any:
+                        exc = yield
+                        try:
+                            await checkpoint()
+                        except anyio.get_cancelled_exc_class():
+                            kern.tdlog.append(f"td+ {cmd['cb']['id']} {exc_name(exc)}")
+                            kern.tdlog.append(f"td- {cmd['cb']['id']} cancelled")
+                            raise
+                        inner(exc)
+
+                    try:
+                        await gen()
+                    except Exception as e:  # noqa: BLE001
+                        return kern.exc_out(e)
+                    return ["ok"]
                 cb: Any = kern.make_cb(cmd["cb"], cmd["c"]) if cmd["callable"] else "not callable"
                 return kern.guard(lambda: target.add_teardown_callback(cb, cmd["cb"]["pass"]))
             if op == "parent":
